@@ -339,3 +339,74 @@ def check_asciifold(facts):
                "the ASCII fold is %s, expected exactly %s: ASCII and UTF-8 entry points would canonicalise differently" % (got, want),
                facts.loc(fns[0]))
     return r
+
+
+# ---- UTF16BYTES -----------------------------------------------------------------------------
+
+def _byte_node_constructions(facts):
+    out = []
+    for fn in sorted(facts.body_names()):
+        b = facts.body(fn)
+        for bi, i, s in b.iter_stmts():
+            if s["k"] == "assign" and s["rv"]["k"] == "agg" and s["rv"].get("adt") == "ir::Node" \
+                    and s["rv"]["variant"] in ("ByteSequence", "ByteSet"):
+                # a field-wise copy of an existing node of the same variant is not a new construction
+                op = s["rv"]["ops"][0]
+                copy = False
+                if op["k"] in ("copy", "move"):
+                    l = op["pl"]["l"]
+                    seen = set()
+                    work = [l]
+                    while work:
+                        x = work.pop()
+                        if x in seen:
+                            continue
+                        seen.add(x)
+                        for d in b.defs().get(x, []):
+                            ops = []
+                            if d[2] == "assign":
+                                rv = d[3]["rv"]
+                                for k in ("op",):
+                                    if isinstance(rv.get(k), dict):
+                                        ops.append(rv[k])
+                                if rv["k"] == "ref":
+                                    ops.append({"k": "copy", "pl": rv["pl"]})
+                            else:
+                                ops = list(d[3]["args"])
+                            for o in ops:
+                                if o.get("k") in ("copy", "move"):
+                                    if any(isinstance(p, dict) and p.get("as") == s["rv"]["variant"] for p in o["pl"]["p"]) \
+                                            and "ir::Node" in b.local_ty(o["pl"]["l"]):
+                                        copy = True
+                                    work.append(o["pl"]["l"])
+                if not copy:
+                    out.append((fn, s["rv"]["variant"], s.get("line")))
+    return out
+
+
+def check_utf16bytes(allfacts):
+    r = RuleResult("UTF16BYTES", "with the utf16 feature no ir::Node::ByteSequence / ByteSet is ever constructed (copies of an existing node of "
+                                 "the same variant aside), so no byte-level instruction is emitted and the byte-level InputIndexer methods of "
+                                 "Utf16Input/Ucs2Input, which panic, are unreachable; positive control: the default configuration constructs them")
+    u = _byte_node_constructions(allfacts["utf16"])
+    d = _byte_node_constructions(allfacts["default"])
+    for fn, v, line in u:
+        r.fail("[utf16] %s constructs Node::%s" % (fn, v), "a byte-level node is built in a utf16 build (line %s): matching it against u16 input "
+               "reaches a panicking byte accessor" % line, allfacts["utf16"].loc(fn, line))
+    if not u:
+        r.ok("[utf16] no construction of Node::ByteSequence / Node::ByteSet")
+    if len(d) >= 3:
+        r.ok("[default] positive control: %d constructions seen" % len(d), nontrivial=False)
+        r.sample({"default_constructions": [(a.split("::")[-1], v) for a, v, _ in d]})
+    else:
+        r.error("positive control failed: only %d byte-node constructions found in the default configuration" % len(d))
+    # scm::MatchByteSet keeps a non-byte branch for u16 inputs
+    fn = [n for n in allfacts["utf16"].body_names() if n.startswith("<scm::MatchByteSet<") and n.endswith("::matches")]
+    if fn:
+        b = allfacts["utf16"].body(fn[0])
+        calls = {(t.get("callee") or "").split("::")[-1] for _, t in b.iter_calls()}
+        if "next" in calls and "next_byte" in calls:
+            r.ok("scm::MatchByteSet::matches decodes a full element when code units are not bytes")
+        else:
+            r.fail("scm::MatchByteSet::matches non-byte branch", "AsciiBracket matching no longer has a branch for non-byte inputs", allfacts["utf16"].loc(fn[0]))
+    return r
